@@ -91,3 +91,4 @@ def _r01_4(res, P, cfgname):
 
 LEVEL = LEVEL + ' Also (R19.2, shared) no arithmetic step of the integer kernels sits inside a debug assertion.'
 TECHNIQUE = 'static analysis of MIR: path-sensitive use-of-result rule (carry/borrow consumed on every path), abstract evaluation of dispatcher and estimator bodies over all length classes, finite sign tables (FDT), debug-region effect analysis'
+LEVEL = LEVEL + ' (R01.4) push_resizing, which skips a zero word, is never directly followed by another positional append on the same buffer.'
